@@ -23,6 +23,20 @@ NCPU = int(os.environ.get('VERIF_JOBS', '0')) or min(16, os.cpu_count() or 1)
 SEED = int(os.environ.get('VERIF_SEED', '0') or 0)
 
 
+def child_setup():
+    """preexec_fn for every process the checks start: die with the parent, bounded CPU time"""
+    import ctypes
+    import resource
+    try:
+        ctypes.CDLL('libc.so.6', use_errno=True).prctl(1, 9)      # PR_SET_PDEATHSIG, SIGKILL
+    except Exception:
+        pass
+    try:
+        resource.setrlimit(resource.RLIMIT_CPU, (300, 300))
+    except Exception:
+        pass
+
+
 class MachineryError(Exception):
     """Something in the checking machinery failed (never a verdict)."""
 
@@ -120,8 +134,20 @@ class ChildResult(object):
         return int(self.status[4:]) if self.status.startswith('sig=') else None
 
 
+class ShimDied(MachineryError):
+    pass
+
+
 class Shim(object):
     def __init__(self):
+        self.log = None
+        self.start()
+
+    def mark(self):
+        """start logging requests: after a shim death the log is replayed one by one to find the culprit"""
+        self.log = []
+
+    def start(self):
         env = dict(os.environ)
         env['RUST_BACKTRACE'] = '0'
         self.p = subprocess.Popen([SHIM], stdin=subprocess.PIPE, stdout=subprocess.PIPE, bufsize=1 << 16, env=env)
@@ -134,13 +160,40 @@ class Shim(object):
             self.p.kill()
 
     def send(self, *fields):
-        self.p.stdin.write(('\t'.join(str(f) for f in fields) + '\n').encode('utf-8'))
+        b = ('\t'.join(str(f) for f in fields) + '\n').encode('utf-8')
+        if self.log is not None:
+            self.log.append(b)
+        try:
+            self.p.stdin.write(b)
+        except BrokenPipeError:
+            raise ShimDied('shim died (status %r)' % self.p.poll())
 
     def recv(self):
         l = self.p.stdout.readline()
         if not l:
-            raise MachineryError('shim died (status %r)' % self.p.poll())
+            raise ShimDied('shim died (status %r)' % self.p.poll())
         return l[:-1].decode('utf-8', 'replace')
+
+    def culprit(self):
+        """after a ShimDied: restart and replay the logged requests one at a time; returns the request that
+        kills (or hangs) the shim, or None if the death does not reproduce"""
+        log = self.log or []
+        self.log = None
+        try:
+            self.p.kill()
+        except Exception:
+            pass
+        self.start()
+        for b in log:
+            try:
+                self.p.stdin.write(b)
+                self.p.stdin.flush()
+                if not self.p.stdout.readline():
+                    raise ShimDied('died')
+            except (ShimDied, BrokenPipeError):
+                self.start()
+                return b.decode('utf-8', 'replace').rstrip('\n')
+        return None
 
     def call(self, *fields):
         self.send(*fields)
@@ -155,9 +208,14 @@ class Shim(object):
         n = 0
         for r in reqs:
             b = ('\t'.join(str(f) for f in r) + '\n').encode('utf-8')
+            if self.log is not None:
+                self.log.append(b)
             if size + len(b) > limit and n:
-                self.p.stdin.write(b''.join(buf))
-                self.p.stdin.flush()
+                try:
+                    self.p.stdin.write(b''.join(buf))
+                    self.p.stdin.flush()
+                except BrokenPipeError:
+                    raise ShimDied('shim died (status %r)' % self.p.poll())
                 for _ in range(n):
                     out.append(self.recv())
                 buf, size, n = [], 0, 0
@@ -165,8 +223,11 @@ class Shim(object):
             size += len(b)
             n += 1
         if n:
-            self.p.stdin.write(b''.join(buf))
-            self.p.stdin.flush()
+            try:
+                self.p.stdin.write(b''.join(buf))
+                self.p.stdin.flush()
+            except BrokenPipeError:
+                raise ShimDied('shim died (status %r)' % self.p.poll())
             for _ in range(n):
                 out.append(self.recv())
         return out
@@ -354,3 +415,31 @@ def collect(st, results, limit=400):
     if hasattr(results, 'close'):
         results.close()
     return st
+
+
+def guard_task(prop_of, engine):
+    """decorator for worker tasks that drive in-process shim modes: when the shim dies (crash in the code under
+    test, or the 15 s watchdog) the logged requests are replayed one at a time to pin down the culprit, which is
+    reported as a violation of the property (prop_of: property id, or index of the task argument holding it)"""
+    import functools
+
+    def deco(f):
+        @functools.wraps(f)
+        def g(*a, **kw):
+            sh = shim()
+            sh.mark()
+            try:
+                r = f(*a, **kw)
+                sh.log = None
+                return r
+            except ShimDied:
+                req = sh.culprit()
+                if req is None:
+                    raise MachineryError('the shim died and the death does not reproduce')
+                prop = prop_of if isinstance(prop_of, str) else a[prop_of]
+                st = Stats()
+                st.violate(Violation(prop, engine, 'crash-or-hang', {'kind': 'shim_request', 'request': req[:600]},
+                                     'the operation returns', 'the process died (crash, stack overflow) or did not answer within 15 s'))
+                return st
+        return g
+    return deco
